@@ -266,6 +266,13 @@ inline std::unordered_set<void *> &guard_live() { static std::unordered_set<void
 inline long &guard_foreign_frees() { static long n = 0; return n; }
 inline void *guard_malloc(size_t n) { void *p = malloc(n ? n : 1); if (p) guard_live().insert(p); return p; }
 inline void guard_free(void *p) { if (!p) return; if (!guard_live().erase(p)) { guard_foreign_frees()++; return; } free(p); }
+// recycling allocator (installed through jwt_set_alloc by the "same address, other object" checks): a freed block is handed out again,
+// most recently freed first, to the next request of the same size - what a pool allocator or a plain malloc does, and what ASan's
+// quarantine prevents. Freed blocks are filled with 0xDD so that anything still reading them reads rubbish.
+struct Recycler { std::map<size_t, std::vector<void *>> free_; std::map<void *, size_t> size_; long reused = 0; };
+inline Recycler &recycler() { static Recycler *r = new Recycler; return *r; }
+inline void *recycle_malloc(size_t n) { Recycler &r = recycler(); if (!n) n = 1; auto &v = r.free_[n]; if (!v.empty()) { void *p = v.back(); v.pop_back(); r.reused++; return p; } void *p = malloc(n); if (p) r.size_[p] = n; return p; }
+inline void recycle_free(void *p) { if (!p) return; Recycler &r = recycler(); auto it = r.size_.find(p); if (it == r.size_.end()) { free(p); return; } memset(p, 0xDD, it->second); r.free_[it->second].push_back(p); }
 
 // jwt_value_t constructors (the jwt_set_* macros of jwt.h are C-only: they assign 0 to an enum)
 // jwt_value_t helpers that do exactly what the jwt_set_{GET,SET}_* macros of jwt.h do (those are C-only statement expressions),
@@ -290,7 +297,12 @@ inline bool shrink_exhausted(int budget = 3000) { static int after = 0; if (!fai
 
 // provider switch (C12 anchors): 0=openssl 1=gnutls
 inline const char *prov_name(int p) { return p ? "gnutls" : "openssl"; }
-inline bool set_provider(int p) { return jwt_set_crypto_ops(prov_name(p)) == 0; }
+// Every harness case starts with set_provider(). It also leaves ONE unrelated entry on OpenSSL's per-thread error queue: an
+// application that uses OpenSSL for anything else (TLS, other keys) calls libjwt with a queue that is not empty, and nothing in
+// libjwt's contract asks for a clean one. (The fuzz targets take the state of the queue from an input bit; the command-line tools run with a clean queue.)
+extern "C" { void ERR_clear_error(void); void ERR_new(void); void ERR_set_debug(const char *file, int line, const char *func); void ERR_set_error(int lib, int reason, const char *fmt, ...); }
+inline void pollute_openssl_error_queue() { ERR_clear_error(); ERR_new(); ERR_set_debug("verif-harness", 0, "unrelated"); ERR_set_error(128 /* ERR_LIB_USER */, 101, "left over by the application"); }
+inline bool set_provider(int p, bool pollute = true) { bool ok = jwt_set_crypto_ops(prov_name(p)) == 0; if (pollute) pollute_openssl_error_queue(); else ERR_clear_error(); return ok; }
 
 }  // namespace v
 
